@@ -5,6 +5,7 @@ C05 — damaged metadata is reported, never silently decoded into different valu
 import JubakoModel.Model.Container
 import JubakoModel.Lemmas.CrcWindow
 import JubakoModel.Lemmas.Mask
+import JubakoModel.Lemmas.DamageFile
 
 namespace Jubako
 
@@ -75,5 +76,88 @@ theorem c05_collision_characterisation (d e : Bytes) (he : e.length = (block d).
   have hb : crcFeed crcPolyU crcInitU (block d) = 0 :=
     (checkBlock_iff _ (by rw [block_length]; omega)).mp (checkBlock_block d)
   rw [hb]; simp
+
+/-! ### File level: damaged copies of written packs
+
+`BlocksAgree f g` ("`g` is a damaged copy of `f`"): every CRC-checked block that verifies in `f`
+is found unchanged at the same place in `g`, or does not verify there — i.e. no damaged block passes
+its CRC with other bytes.  The three theorems below show it needs **no hypothesis** for the damage
+families the property quantifies over exhaustively; for wider overwrites it is exactly the "no
+CRC-32 collision" side condition (`c05_collision_characterisation`). -/
+
+/-- truncation at any length is a damaged copy -/
+theorem c05_damage_truncation (f : Bytes) (k : Nat) : BlocksAgree f (f.take k) := blocksAgree_take f k
+
+/-- any bytes appended make a damaged copy -/
+theorem c05_damage_extension (f junk : Bytes) : BlocksAgree f (f ++ junk) := blocksAgree_append f junk
+
+/-- any alteration confined to 4 consecutive bytes makes a damaged copy -/
+theorem c05_damage_window (f g : Bytes) (i : Nat)
+    (hsame : ∀ k, (k < i ∨ i + 4 ≤ k) → g[k]? = f[k]?) : BlocksAgree f g := blocksAgree_window4 f g i hsame
+
+/-- … in particular overwriting any one byte with any value (every position × every mask) -/
+theorem c05_damage_single_byte (f : Bytes) (pos : Nat) (b : UInt8) : BlocksAgree f (f.set pos b) := by
+  apply blocksAgree_window4 f _ pos
+  intro k hk
+  rw [List.getElem?_set_ne (by omega)]
+
+/-- **Directory pack, file level.**  For every well-formed writer input and every damaged copy `g`
+    of the bytes the writer produced, entry `i` read out of `g` is exactly the entry that was
+    written — variant id and every property value — or the read fails with an error value.  Never
+    another value. -/
+theorem c05_file_directory_entry (H : Bytes → Bytes) (vendor uuid freeData : Bytes) (d : DirIn)
+    (hwf : d.WF) (hl : d.Limits H vendor uuid freeData) (g : Bytes)
+    (hD : BlocksAgree (dirPackWrite H vendor uuid freeData d) g) (i : Nat) (hi : i < d.entries.length) :
+    dirGetEntry g 0 i = .ok (expectedEntry d.schema d.entries[i]) ∨ ∃ k, dirGetEntry g 0 i = .err k :=
+  dirGetEntry_damaged H vendor uuid freeData d hwf hl g hD i hi
+
+/-- … unconditionally for every single-byte alteration of the written file -/
+theorem c05_file_directory_single_byte (H : Bytes → Bytes) (vendor uuid freeData : Bytes) (d : DirIn)
+    (hwf : d.WF) (hl : d.Limits H vendor uuid freeData) (pos : Nat) (b : UInt8)
+    (i : Nat) (hi : i < d.entries.length) :
+    dirGetEntry ((dirPackWrite H vendor uuid freeData d).set pos b) 0 i =
+        .ok (expectedEntry d.schema d.entries[i]) ∨
+      ∃ k, dirGetEntry ((dirPackWrite H vendor uuid freeData d).set pos b) 0 i = .err k :=
+  dirGetEntry_damaged H vendor uuid freeData d hwf hl _ (c05_damage_single_byte _ pos b) i hi
+
+/-- **Content pack, file level.**  For every insertion sequence, arrival order and sound codec, and
+    every damaged copy `g` of the written pack: content `i` read out of `g` has exactly the stored
+    size (only its raw bytes may differ — cluster payloads carry no CRC; that is the case the pack
+    check of C04 covers), or the read fails with an error value; a content id past the count is
+    still "no such content" or an error.  `decompress'` is whatever the decoder delivers, also on
+    a damaged payload. -/
+theorem c05_file_content_shape (H : Bytes → Bytes) (codec : Codec) (hcodec : codec.Sound)
+    (hbyte : codec.byte ≤ 3) (m : ContentPackMeta) (hm : m.WF)
+    (items : List Item) (arrival : List Cluster)
+    (hp : arrival.Perm ((Creator.init.addAll items).finalize).1)
+    (hcomp : codec.byte = 0 → ∀ it ∈ items, it.comp = false)
+    (hcount : items.length < 2 ^ 32) (hncl : arrival.length ≤ 2 ^ 20)
+    (hdata : totalSize items < 2 ^ 64)
+    (hsize : (contentPackWrite H codec m arrival ((Creator.init.addAll items).finalize).2).length < 2 ^ 48)
+    (g : Bytes)
+    (hD : BlocksAgree (contentPackWrite H codec m arrival ((Creator.init.addAll items).finalize).2) g) :
+    (∀ i (hi : i < items.length),
+      (∃ b, contentGet codec.decompress' g i = .ok (some b) ∧ b.length = (items[i]).data.length) ∨
+        ∃ k, contentGet codec.decompress' g i = .err k) ∧
+    (∀ i, items.length ≤ i →
+      contentGet codec.decompress' g i = .ok none ∨ ∃ k, contentGet codec.decompress' g i = .err k) :=
+  ⟨fun i hi => contentGet_damaged H codec hcodec hbyte m hm items arrival hp hcomp hcount hncl hdata hsize g hD i hi,
+   fun i hi => contentGet_damaged_none H codec m hm items arrival hcount hncl hsize g hD i hi⟩
+
+/-- the manifest reader follows too: the pack list of a damaged manifest is the written one, or an error -/
+theorem c05_manifest_follows (f g : Bytes) (hD : BlocksAgree f g) (v : PackHeader × ManifestHeader × List PackInfo)
+    (hf : manifestOpen f = .ok v) : manifestOpen g = .ok v ∨ ∃ k, manifestOpen g = .err k := by
+  rcases manifestOpen_follows hD v hf with ⟨v', h1, h2⟩ | he
+  · subst h2; exact Or.inl h1
+  · exact Or.inr he
+
+/-- non-vacuity: the example directory pack of Lemmas/DirFile.lean, one byte overwritten -/
+example (pos : Nat) (b : UInt8) :
+    dirGetEntry ((dirPackWrite DirFileExample.hash DirFileExample.vendor DirFileExample.uuid
+        DirFileExample.freeData DirFileExample.input).set pos b) 0 1 =
+      .ok (expectedEntry DirFileExample.input.schema DirFileExample.input.entries[1]) ∨
+    ∃ k, dirGetEntry ((dirPackWrite DirFileExample.hash DirFileExample.vendor DirFileExample.uuid
+        DirFileExample.freeData DirFileExample.input).set pos b) 0 1 = .err k :=
+  c05_file_directory_single_byte _ _ _ _ _ DirFileExample.input_wf DirFileExample.limits pos b 1 (by decide)
 
 end Jubako
